@@ -492,7 +492,7 @@ SYNC_RELOADED = {
                 lemma_inv_window(St { window: sh.window, ..s1 }, s1.window, av, af);
                 assert(St { window: s1.window, ..(St { window: sh.window, ..s1 }) } == s1);
             }'''),
-        (r'if next_snapshot\.version == applied_snapshot\.version \{', 'after', '''
+        (r'if next_snapshot\.version == applied_snapshot\.version[^{]*\{', 'after', '''
                 proof { lemma_done(s1, av, af); }'''),
         (r'vx_i \+= 1;', 'after', 'let ghost vx_n = vx_i as int - 1; proof { assert(*uri == applied_snapshot.files@[vx_n].0); }'),
         (r'if next_open_uris\.contains\(uri\) \{', 'after', '''
@@ -528,7 +528,7 @@ SYNC_RELOADED = {
             lemma_env_inv(s1b, mid, av, af);
             lemma_env_pre(s1b, mid, nv, nf);
             assert(st.g@ == (St { analysis: st.g@.analysis, ..mid }));
-            lemma_after_apply(mid, st.g@, av, af, nv, nf, acts, s1b.wm, s1b.epoch);
+            lemma_after_apply(mid, st.g@, af, nv, nf, acts, s1b.wm, s1b.epoch);
         }'''),
     ],
 }
@@ -608,13 +608,82 @@ APPLY_WORKSPACE_RELOAD = {
     ],
 }
 
+def _reindex_text():
+    """the text of the reindex slice in the tree under verification (the proof overlay follows the text: see REINDEX_PROOF)"""
+    from vc import extract as X
+    from vc.assemble import REPO
+    try:
+        return X.find_item(REPO, {'file': WM, 'kind': 'fn', 'impl': 'WorkspaceManager', 'name': 'reindex_workspace'}).raw
+    except Undecided:
+        return ''
+
+
+# ghost steps that exist in every version of the slice
+REINDEX_PROOF = [
+    (r'let mut analysis = analysis\.write\(st\);', 'after', 'let ghost s1 = st.g@; proof { lemma_env_done(s0, s1); }'),
+    (r'drop\(analysis\);', 'after', 'let ghost s2 = st.g@; proof { lemma_cleanup(s1, s2, s1.epoch); }'),
+]
+if 'sync_reloaded_open_files(context, open_files)' in _reindex_text():
+    # the tree re-applies the open documents after the cleanup (proposed_fix_reindex_keeps_open_files.diff): the ghost steps of that part
+    REINDEX_PROOF += [
+        (r'let workspace_manager = context\.workspace_manager\(\)\.read\(st\);', 'after', '''
+                    let ghost s3 = st.g@;
+                    proof {
+                        let m3 = St { window: s2.window, ..s3 };
+                        lemma_env(s2, m3); lemma_rely_closed(s2, m3, Seq::<(Uri, String)>::empty());
+                        assert(s3.store() == m3.store() && s3.pclose() == m3.pclose());
+                        assert(closed_ok(s3, Seq::<(Uri, String)>::empty()));
+                    }'''),
+        (r'apply_open_file_sync\(', 'before', '''
+                let ghost s3b = st.g@; let ghost nv = open_files.version; let ghost nf = open_files.files@; let ghost acts = Seq::<OpenFileSyncAction>::empty();
+                proof { lemma_cur_wf(s3b.wm, nf); assert(pre(s3b, nv, nf)); }'''),
+        (r'sync_reloaded_open_files\(', 'before', '''
+                proof {
+                    let an0 = choose|an0: Map<Uri, Text>| #![trigger sync_applied(an0, st.g@.analysis, nf, acts, st.g@.epoch)]
+                        env(s3b, St { analysis: an0, ..st.g@ }) && sync_applied(an0, st.g@.analysis, nf, acts, st.g@.epoch);
+                    let mid = St { analysis: an0, ..st.g@ };
+                    lemma_env(s3b, mid); lemma_rely_closed(s3b, mid, Seq::<(Uri, String)>::empty()); lemma_closed_weaken(mid, nf);
+                    lemma_rely_pre(s3b, mid, nv, nf);
+                    assert(st.g@ == (St { analysis: st.g@.analysis, ..mid }));
+                    lemma_after_apply(mid, st.g@, nf, nv, nf, acts, s3b.wm, 0);
+                }'''),
+    ]
+
+HANDLER_RULES = ASYNC + [('letchain-nest', {'optional': True}), ('c29-drop-wm-guard', {'optional': True}),
+                         ('c29-shared-state', {'calls': (('file_path', 'exists'), ('analysis', 'get_file_id'), ('analysis', 'update_file_by_uri'),
+                                                         ('mut_analysis', 'remove_file_by_uri'), ('mut_analysis', 'update_file_by_uri')),
+                                               'callees': ('read_file_with_encoding',)}),
+                         'c29-ghost-param']
+
+OPEN = {
+    'src': {'file': TD, 'kind': 'fn', 'name': 'on_did_open_text_document'},
+    'rules': HANDLER_RULES,
+    'attrs': SPIN,
+    'ret': 'r',
+    'requires': 'keys_ok(), %(G0)s.quiet' % {'G0': G0},
+    'ensures': '''
+            // = micro steps `m_upd` then `m_flush_upd`: the store records the text and its version moves — BEFORE the analysis is touched (the
+            // precondition of the update_file_by_uri shim) —, then a processed document gets exactly that text
+            wm_sync(%(G0)s.wm, %(G1)s.wm, params.text_document.uri, params.text_document.text) /*@C29.open.store-records-text-first*/,
+            upd_effect(%(G0)s, %(G1)s, params.text_document.uri, params.text_document.text) /*@C29.open.analysis-gets-the-stored-text*/''' % {'G0': G0, 'G1': G1},
+}
+
+CHANGE = {
+    'src': {'file': TD, 'kind': 'fn', 'name': 'on_did_change_text_document'},
+    'rules': HANDLER_RULES,
+    'attrs': SPIN,
+    'ret': 'r',
+    'requires': 'keys_ok(), %(G0)s.quiet' % {'G0': G0},
+    'ensures': '''
+            params.content_changes@.len() > 0 ==> wm_sync(%(G0)s.wm, %(G1)s.wm, params.text_document.uri, params.content_changes@[0].text) /*@C29.change.store-records-text-first*/,
+            params.content_changes@.len() > 0 ==> upd_effect(%(G0)s, %(G1)s, params.text_document.uri, params.content_changes@[0].text) /*@C29.change.analysis-gets-the-stored-text*/,
+            // a notification without content changes is ignored as a whole (unit c27_order): no store write either
+            params.content_changes@.len() == 0 ==> %(G1)s.wm == %(G0)s.wm && %(G1)s.analysis == %(G0)s.analysis''' % {'G0': G0, 'G1': G1},
+}
+
 CLOSE = {
     'src': {'file': TD, 'kind': 'fn', 'name': 'on_did_close_document'},
-    'rules': ASYNC + ['letchain-nest', 'c29-drop-wm-guard',
-                      ('c29-shared-state', {'calls': (('file_path', 'exists'), ('analysis', 'get_file_id'), ('mut_analysis', 'remove_file_by_uri'),
-                                                      ('mut_analysis', 'update_file_by_uri')),
-                                            'callees': ('read_file_with_encoding',)}),
-                      'c29-ghost-param'],
+    'rules': HANDLER_RULES,
     'attrs': SPIN,
     'ret': 'r',
     # the handler on its own: nothing else runs at its suspension points (`quiet`); how it interleaves with a reload is the business of `micro`
@@ -627,11 +696,32 @@ CLOSE = {
             close_effect(%(G1)s.wm, %(G0)s.analysis, %(G1)s.analysis, params.text_document.uri) /*@C29.close.closed-document-reflects-disk*/''' % {'G0': G0, 'G1': G1},
 }
 
+REINDEX = {
+    # the part of the spawned task between the debounce wait and the diagnostics refresh: what the reindex does to the analysis
+    'src': {'kind': 'slice', 'name': 'reindex_task_step', 'in': {'file': WM, 'kind': 'fn', 'impl': 'WorkspaceManager', 'name': 'reindex_workspace'},
+            'from': r'// Perform reindex with minimal lock holding time', 'to': r'drop\(analysis\);[^\n]*\n(?:(?! {12}\})[^\n]*\n)*? {12}\}',
+            'head': 'pub async fn reindex_task_step(analysis: Arc<RwLock<EmmyLuaAnalysis>>, context: ServerContextSnapshot)'},
+    'rules': ASYNC + [('c29-clone-files', {'optional': True}),
+                      ('c29-shared-state', {'calls': (('analysis', 'cleanup_nonexistent_files'),)}), 'c29-ghost-param'],
+    'attrs': SPIN,
+    'requires': 'keys_ok(), done(%(G0)s)' % {'G0': G0},
+    'ensures': '''
+            // a reindex that runs while documents are open: afterwards every open workspace file is (still) analysed with its editor text ...
+            open_ok(%(G1)s) /*@C29.reindex.open-files-keep-editor-text*/,
+            // ... and every closed one reflects the disk (cleanup only removes documents whose file is gone)
+            closed_ok(%(G1)s, Seq::<(Uri, String)>::empty()) /*@C29.reindex.closed-files-reflect-disk*/,
+            base(%(G1)s), !%(G1)s.window''' % {'G1': G1},
+    'body_first': 'let ghost s0 = st.g@;',
+    'proof': REINDEX_PROOF,
+}
+
 UNIT = {
     'items': {
-        'Emmyrc': {'src': {'file': CA + 'config/mod.rs', 'kind': 'struct', 'name': 'Emmyrc'}, 'rules': [('struct-fields', {'keep': ['workspace']})]},
+        'Emmyrc': {'src': {'file': CA + 'config/mod.rs', 'kind': 'struct', 'name': 'Emmyrc'}, 'rules': [('struct-fields', {'keep': ['diagnostics', 'workspace']})]},
+        'EmmyrcDiagnostic': {'src': {'file': CA + 'config/configs/diagnostics.rs', 'kind': 'struct', 'name': 'EmmyrcDiagnostic'},
+                             'rules': [('struct-fields', {'keep': ['diagnostic_interval']})]},
         'EmmyrcWorkspace': {'src': {'file': CA + 'config/configs/workspace.rs', 'kind': 'struct', 'name': 'EmmyrcWorkspace'},
-                            'rules': [('struct-fields', {'keep': ['encoding']})]},
+                            'rules': [('struct-fields', {'keep': ['encoding', 'enable_reindex']})]},
         'WorkspaceFolder': {'src': {'file': CA + 'vfs/collect_workspace_files.rs', 'kind': 'struct', 'name': 'WorkspaceFolder'}},
         'WorkspaceManager': {'src': {'file': WM, 'kind': 'struct', 'name': 'WorkspaceManager'},
                              'rules': [('struct-fields', {'keep': ['workspace_folders', 'open_file_texts', 'open_file_state_version', 'match_file_pattern']})]},
@@ -648,7 +738,10 @@ UNIT = {
         'sync_reloaded_open_files': SYNC_RELOADED,
         'init_analysis': INIT_ANALYSIS,
         'apply_workspace_reload': APPLY_WORKSPACE_RELOAD,
+        'on_did_open_text_document': OPEN,
+        'on_did_change_text_document': CHANGE,
         'on_did_close_document': CLOSE,
+        'reindex_task_step': REINDEX,
     },
     'extra_rules': [
         ('c29-enum-pub', r'\Aenum ', 'pub enum ', 'visibility has no run-time meaning'),
@@ -679,9 +772,178 @@ UNIT = {
          'format!("Indexing {} files", n) used only as the text of a progress message -> vx_format_count(n) (opaque String)'),
     ],
     'allow': [r'external_body', r'uninterp'],
-    'min_obligations': 30,
-    'trusted': [],
-    'not_covered': [],
-    'samples': [],
-    'mutants': [],
+    'min_obligations': 44,
+    'trusted': [
+        'THE INTERLEAVING MODEL (template.rs `micro` / `reach` / `env`). The reload is ONE sequential run; at every suspension point (`.await`; rule '
+        'c29-await-st turns each into a call whose callee takes the ghost state: a lock acquisition, a shimmed async fn, or a real async fn of this unit) the '
+        'rest of the server performs any finite number of micro steps: (m_upd) didOpen / didChange (u, t) writes the store = `sync_open_file` (version + 1) '
+        'and becomes THE in-flight handler — its `update_file_by_uri(u, t)` is pending iff `should_process` (document known to the analysis or a '
+        'workspace file; arbitrary while `window`); (m_close) didClose (u) writes the store = `close_open_file`, in flight; (m_flush_upd / m_flush_close) '
+        'the in-flight handler finishes: analysis[u] := t / `close_effect`; (m_idle) nothing; the disk (`epoch`) may change at every step. `rely` — what '
+        'the exec proofs use — is PROVED from `micro` (lemma_micro_rely, lemma_rely_trans, lemma_reach_rely, lemma_env), so only `micro` itself is trusted',
+        'ADMITTED by the model: any number of open / change / close notifications, on any documents, with any texts (an edit back to the disk text or to the '
+        'old text; open + close between two snapshots; close + reopen), between ANY two steps of the reload — before the first snapshot, between snapshot '
+        'and disk load, during the load (more than the analysis write lock allows), between load and version loop, between a snapshot of the loop and its '
+        'application, after the loop; ONE handler in flight whose analysis update lands before or after the load or any re-application; ONE handler whose '
+        '`should_process` was evaluated against the previous matcher; a disk that changes at every step (lemma_admits_* name two such runs)',
+        'NOT admitted: two text-sync handlers in flight at once (the main loop awaits them inline: unit c27_order, C27.dispatch.*); any OTHER writer of '
+        'the analysis or the store while the reload runs — didChangeWatchedFiles, didRenameFiles, a second reload (`reload_lock` serialises them, '
+        '`reload_generation` drops superseded ones: not under contract), the reindex task (put under contract on its own, from a settled state, not '
+        'interleaved with a reload); a wrap of the u64 version counter (micro requires ver < u64::MAX: fewer than 2^64 store writes in a server lifetime); '
+        'real parallelism inside a lock scope (every access to the store / the analysis happens under its lock and acquiring a lock is a suspension '
+        'point, so lock scopes are atomic: tokio RwLock)',
+        '`window` (the stale-decision handler): a handler that evaluated `is_workspace_file` before the reload swapped the matcher requests the '
+        'workspace-manager WRITE lock in the same poll in which it released the read lock; tokio\'s RwLock is FIFO, so that write is granted before the '
+        'reload\'s NEXT acquisition of the lock (the first read of the version loop): the lock shims set `window` at `write()` and clear it at `read()`. '
+        'This is the only fairness fact used (C28 is not modelled)',
+        'the guarantee side of the handlers is CHECKED, not trusted: on_did_open / on_did_change / on_did_close are verified on their own (`quiet`: nothing '
+        'else runs at their suspension points) against `upd_effect` / `wm_close` + `close_effect`, and the update_file_by_uri shim demands STORE FIRST. What '
+        'stays trusted: that a handler\'s run splits into the atomic pieces of `micro` exactly at its lock acquisitions',
+        'lock shims: `RwLock<WorkspaceManager>::write / read` hand out the value behind the lock as a reference (`*final(r)` is what later readers see); '
+        'sound because no `.await` occurs while such a guard is alive (check-only rule c29-no-await-under-wm-guard, run on every fn that takes the lock); '
+        '`RwLock<EmmyLuaAnalysis>::write` gives an opaque guard through which the shimmed `&mut self` methods are called',
+        'ghost state: `analysis: Map<Uri, Text>` = the Vfs text per uri ("analysed with text t" == the Vfs holds t; the index is rebuilt from the Vfs: units '
+        'c09 / c10 / c22_vfs). Written only by the shims of update_file_by_uri / update_files_by_uri (entries applied in order, `None` text = no text) / '
+        'remove_file_by_uri / reload_workspace_files / cleanup_nonexistent_files; `get_file_id(u).is_some()` == the analysis has a text for u (a document '
+        'whose content was set to None keeps its id in the real Vfs: not distinguished)',
+        'shim `reload_workspace_files` = `load_post`, read off emmylua_code_analysis/src/lib.rs:236-287 at the uri level: open documents get the given '
+        'text; any other document with a file path that is not std gets the text collected for its path or is removed (stale); the rest is untouched. '
+        'Uris are canonical (`file_path_to_uri(uri_to_file_path(u)) == u` for the uris the client sends; a second spelling of the same path would be a '
+        'second document). shim `collect_workspace_files`: every text it returns is a reading of that file (sp_read at the current epoch). shim '
+        '`cleanup_nonexistent_files` (lib.rs:319-344): removes every non-std local document whose path does not exist NOW. `reindex` (lib.rs:308-316) '
+        'clears and rebuilds the index from the Vfs texts: no ghost parameter, hence no text change',
+        'the disk: `sp_read(path, epoch)` / `sp_exists(path, epoch)` uninterpreted; `epoch` may advance at every micro step and is constant inside one '
+        'lock scope of the reload (no suspension point there). "reflects its on-disk content" == `disk_like`: absent, or equal to SOME reading of its file',
+        'uninterpreted: sp_path (uri_to_file_path), sp_is_std, sp_is_module_file (ModuleInfo exists), WorkspaceFileMatcher::sp_match; FileId remembers its uri',
+        'vstd: std::collections::HashMap / HashSet specs (insert / remove / contains_key / iter + the for-loop iterator model) under '
+        '`obeys_key_model::<Uri>()` (precondition `keys_ok()`: lsp_types::Uri\'s Hash / Eq agree with equality), Vec / slice iteration, u64::wrapping_add, '
+        'String / Arc clone, Option::{unwrap_or, is_some, is_none}, `?` on Option, Vec::first',
+        'unit-local rewrite rules (documented in their docstrings / `extra_rules`): c29-await-st, c29-no-await-under-wm-guard (check only), '
+        'c29-hashmap-filter-map-collect, c29-iter-map-collect-set, c29-filter-map-collect-while, c29-into-iter-map-collect (iterator chains -> loops, std '
+        'docs of the adapters), c29-letchain-nest, c29-clone-files, c29-drop-wm-guard, c29-arc-as-ref, c29-log-drop, c29-format-count, c29-shared-state / '
+        'c29-ghost-param (state passing), c29-enum-pub / c29-struct-pub',
+        'lsp_types (emmy_lsp_types 0.1.0) parameter structs of the three notifications transcribed as data; ServerContextSnapshot accessors, StatusBar, '
+        'FileDiagnostic, LspFeatures, register_files_watch, serde_json::to_string_pretty, build_workspace_folders, WorkspaceFileMatcher::new opaque '
+        '(the async ones = `env`: the rest of the server runs; they touch neither the store nor the analysis: register_files_watch only stores the watcher)',
+    ],
+    'not_covered': [
+        'real tokio scheduling; the debounce tokens (DebounceToken / PendingTask: C30) of add_update_emmyrc_task / reindex_workspace; lock fairness and '
+        'deadlock freedom (C28) beyond the one FIFO fact of `window`',
+        'file watching: on_did_change_watched_files is not in the model. OBSERVATION (not claimed either way): its DELETED branch calls remove_file_by_uri '
+        'before it looks at `is_open_file`, so a file deleted on disk disappears from the analysis although it is open — the same shape as the reindex finding',
+        'spawn_workspace_reload_task (`reload_lock`, `reload_generation`), add_reload_workspace_task, add_update_emmyrc_task, the spawned half of '
+        'reindex_workspace (debounce wait, diagnostics refresh): "one reload at a time" is an assumption of the model',
+        'initialized_handler calls init_analysis with NO open files and no version loop: sound only because no text-sync notification is handled before '
+        'initialization has finished (pending-message queue: unit c24_dispatch, C24.pending.*)',
+        'TERMINATION of the version loop (`exec_allows_no_decreases_clause`): it ends once no store write falls between a snapshot and its application; '
+        'a client that keeps typing keeps it running (each turn re-applies every open document)',
+        '"absent if not on disk", the converse direction: that a closed workspace file which IS on disk is present needs the loader\'s file collection and '
+        '`is_workspace_file` to agree (include / exclude globs, extensions): not claimed. Documents that are not workspace files, or have no file path, '
+        'or belong to std: outside both clauses',
+        'the repairs were verified by this unit on a scratch worktree, NOT compiled with cargo (no cargo builds in this session)',
+        'diagnostics after a reload / reindex (refresh_workspace_diagnostics, clear_push_file_diagnostics): C30',
+    ],
+    'samples': [
+        'sync_open_file(u, t): store\' == store[u := t], version\' == version.wrapping_add(1); close_open_file(u): store\' == store - u, version + 1',
+        'workspace_open_files_snapshot(): (version, files) with files_ok: every entry an open workspace file with the store\'s text, every open workspace file listed',
+        'apply_open_file_sync(cur, acts): after whatever ran while waiting for the analysis lock, ONE atomic step: analysis[u] == cur-text for every listed u; '
+        'opt(analysis, u) == sp_read(path, now) for RestoreFromDisk(u, path); absent for Remove(u); every other document untouched',
+        'sync_reloaded_open_files(S): inv(state, S) ==> done(state\'): the loop returns only in a state whose store version is the version of the snapshot '
+        'applied last',
+        'init_analysis(.., open_files): forall v. pre(state, v, open_files) ==> inv(state\', v, open_files)',
+        'apply_workspace_reload: base(state) ==> open_ok(state\') && closed_ok(state\', []) && base(state\')',
+        'on_did_close_document(u) on its own: wm_close; close_effect FAILS on the current tree in the branch "file on disk && ModuleInfo exists" (nothing is done)',
+        'reindex_task_step from done(state): closed_ok(state\') holds, open_ok(state\') FAILS on the current tree (cleanup removed an open document whose file is gone)',
+    ],
+    'findings': [
+        'F1 — C29.close.closed-document-reflects-disk FAILS on on_did_close_document (text_document_handler.rs:151-199): for a workspace / library file that '
+        'exists on disk the handler leaves the analysis alone, so a document closed with unsaved edits keeps the EDITOR text although the client has '
+        'discarded it (LSP: after didClose the truth is the file). Sequence without any reload: didOpen(u, disk text); didChange(u, "edited"); didClose(u) -> '
+        'analysis[u] == "edited" until the next reload. With a reload the outcome depends on the interleaving: (a) u open in the reload\'s first snapshot, '
+        'didClose(u) at any later suspension point -> the version loop builds RestoreFromDisk(u) -> disk text; (b) u closed at the first snapshot, '
+        'didOpen(u, t) + didClose(u) both handled at ONE suspension point after the load (e.g. while sync_reloaded_open_files waits for the workspace-manager '
+        'read lock) -> u is in neither snapshot, no action, analysis[u] == t; (c) didClose(u) while register_files_watch runs (after the loop) -> t stays. '
+        'C29.reload.closed-files-reflect-disk is therefore proved RELATIVE to this clause (micro step m_flush_close = close_effect). Repair: '
+        'proposed_fix_close_rereads_disk.diff (the else branch re-reads the file: update_file_by_uri(uri, Some(disk text)) / remove when unreadable); with it '
+        'the unit verifies completely on the scratch worktree. NOTE: the repair changes what unit c27_order records as C27.close.workspace-file-keeps-last-text',
+        'F2 — C29.reindex.open-files-keep-editor-text FAILS on the reindex task (workspace_manager.rs reindex_workspace): cleanup_nonexistent_files removes '
+        'EVERY document whose file does not exist, open or not; `reindex` itself keeps the Vfs texts (no re-application needed for it). Sequence '
+        '(workspace.enableReindex = true): didOpen(u, t); the file of u disappears from the disk (branch switch, delete in another tool; the editor keeps '
+        'the buffer) or has never been saved; didSave of any document -> after the debounce the task runs cleanup -> the analysis has no text for the open '
+        'document u until its next didChange. The reload path protects the same document (reload_workspace_files keeps `open_paths`). Repair: '
+        'proposed_fix_reindex_keeps_open_files.diff (after cleanup + reindex the task takes a snapshot of the open files, re-applies it with '
+        'apply_open_file_sync and runs the version loop; reindex_workspace gets the ServerContextSnapshot like add_update_emmyrc_task); verified on the '
+        'scratch worktree. Alternative: cleanup_nonexistent_files skips a given set of open uris (changes the analysis crate\'s API)',
+        'CHECKED AND ABSENT (the defects the task asked about): the loop compares VERSIONS, not texts, so an edit back to the on-disk / old text and a text '
+        'that is in neither snapshot are both noticed; a document opened during the load is re-applied by the first turn of the loop (ALL texts of the '
+        'new snapshot are re-applied, not a diff); a document closed during the load that was in the applied snapshot is restored from disk or removed; '
+        'the in-flight handler writes the text the store holds, so its landing before or after the load / a re-application makes no difference; `reindex` '
+        'needs no re-application of texts',
+    ],
+    'mutants': [
+        {'name': 'sync-skips-reapplication-when-nothing-was-closed', 'item': 'apply_open_file_sync',
+         'pattern': r'if current_open_files\.is_empty\(\) && removed_actions\.is_empty\(\) \{', 'repl': 'if removed_actions.is_empty() {',
+         'expect': r'apply_open_file_sync:.*'},
+        {'name': 'sync-drops-the-removed-actions-branch', 'item': 'apply_open_file_sync',
+         'pattern': r'for action in removed_actions \{', 'repl': 'for action in Vec::<OpenFileSyncAction>::new() {',
+         'expect': r'apply_open_file_sync:.*'},
+        {'name': 'sync-restore-keeps-the-old-entry-when-the-read-fails', 'item': 'apply_open_file_sync',
+         'pattern': r'\} else \{\s*analysis\.remove_file_by_uri\(&uri\);\s*removed_uris\.push\(uri\);', 'repl': '} else {',
+         'expect': r'apply_open_file_sync:.*'},
+        {'name': 'loop-reapplies-the-before-snapshot', 'item': 'sync_reloaded_open_files',
+         'pattern': r'next_snapshot\.files\.clone\(\),', 'repl': 'applied_snapshot.files.clone(),',
+         'expect': r'sync_reloaded_open_files:.*'},
+        {'name': 'loop-builds-the-actions-from-the-new-snapshot', 'item': 'sync_reloaded_open_files',
+         'pattern': r'let removed_actions = applied_snapshot\b', 'repl': 'let removed_actions = next_snapshot',
+         'expect': r'sync_reloaded_open_files:.*'},
+        {'name': 'loop-restores-only-non-workspace-files', 'item': 'sync_reloaded_open_files',
+         'pattern': r'if workspace_manager\.is_workspace_file\(uri\)', 'repl': 'if !workspace_manager.is_workspace_file(uri)',
+         'expect': r'sync_reloaded_open_files:.*'},
+        {'name': 'loop-also-stops-when-the-sizes-agree', 'item': 'sync_reloaded_open_files',
+         'pattern': r'(if next_snapshot\.version == applied_snapshot\.version) \{', 'repl': r'\1 || next_snapshot.files.len() == applied_snapshot.files.len() {',
+         'expect': r'sync_reloaded_open_files:.*(C29\.reload\.version-loop-ends-consistent|lemma_done)'},
+        {'name': 'loop-forgets-to-advance-the-applied-snapshot', 'item': 'sync_reloaded_open_files',
+         'pattern': r'applied_snapshot = next_snapshot;', 'repl': 'applied_snapshot = OpenFilesSnapshot { version: next_snapshot.version, files: applied_snapshot.files };',
+         'expect': r'sync_reloaded_open_files:.*'},
+        {'name': 'close-open-file-keeps-the-entry', 'item': 'WorkspaceManager::close_open_file',
+         'pattern': r'self\.open_file_texts\.remove\(uri\);', 'repl': '',
+         'expect': r'C29\.store\.close-forgets-document-and-moves-version'},
+        {'name': 'close-open-file-does-not-move-the-version', 'item': 'WorkspaceManager::close_open_file',
+         'pattern': r'self\.open_file_state_version = self\.open_file_state_version\.wrapping_add\(1\);', 'repl': '',
+         'expect': r'C29\.store\.close-forgets-document-and-moves-version'},
+        {'name': 'sync-open-file-does-not-move-the-version', 'item': 'WorkspaceManager::sync_open_file',
+         'pattern': r'self\.open_file_state_version = self\.open_file_state_version\.wrapping_add\(1\);', 'repl': '',
+         'expect': r'C29\.store\.sync-records-latest-text-and-moves-version'},
+        {'name': 'snapshot-lists-every-open-document', 'item': 'WorkspaceManager::workspace_open_files',
+         'pattern': r'self\.is_workspace_file\(uri\)', 'repl': 'true',
+         'expect': r'C29\.snapshot\.lists-exactly-the-open-workspace-files'},
+        {'name': 'snapshot-carries-a-stale-version', 'item': 'WorkspaceManager::workspace_open_files_snapshot',
+         'pattern': r'version: self\.open_file_state_version,', 'repl': 'version: 0,',
+         'expect': r'C29\.snapshot\.carries-the-store-version'},
+        {'name': 'load-ignores-the-open-files', 'item': 'init_analysis',
+         'pattern': r'reload_workspace_files\(files, open_files\)', 'repl': 'reload_workspace_files(files, Vec::new())',
+         'expect': r'C29\.load\.open-files-override-disk'},
+        {'name': 'reload-skips-the-version-loop', 'item': 'apply_workspace_reload',
+         'pattern': r'(sync_reloaded_open_files\(context\.clone\(\), open_files\)\.await;)', 'repl': r'if false { \1 }',
+         'expect': r'apply_workspace_reload:.*(C29\.reload\.open-files-keep-editor-text|lemma_env_done)'},
+        {'name': 'reload-loads-with-an-empty-snapshot', 'item': 'apply_workspace_reload',
+         'pattern': r'open_files\.files\.clone\(\),', 'repl': '{ let _unused = open_files.files.clone(); Vec::new() },',
+         'expect': r'apply_workspace_reload:.*'},
+        {'name': 'didchange-skips-the-store', 'item': 'on_did_change_text_document',
+         'pattern': r'workspace\.sync_open_file\(uri\.clone\(\), text\.clone\(\)\);', 'repl': '',
+         'expect': r'C29\.change\.store-records-text-first'},
+        {'name': 'didopen-skips-the-store', 'item': 'on_did_open_text_document',
+         'pattern': r'workspace\.sync_open_file\(uri\.clone\(\), text\.clone\(\)\);', 'repl': '',
+         'expect': r'C29\.open\.store-records-text-first'},
+        {'name': 'didchange-touches-the-analysis-before-the-store', 'item': 'on_did_change_text_document',
+         'pattern': r'(\{\s*let mut workspace = context\.workspace_manager\(\)\.write\(\)\.await;\s*workspace\.sync_open_file)',
+         'repl': r'{ let mut analysis = context.analysis().write().await; analysis.update_file_by_uri(&uri, Some(text.clone())); } \1',
+         'expect': r'on_did_change_text_document:precondition-not-satisfied'},
+        {'name': 'didopen-filters-workspace-files', 'item': 'on_did_open_text_document',
+         'pattern': r'workspace_manager\.is_workspace_file\(&uri\)', 'repl': 'false',
+         'expect': r'C29\.open\.analysis-gets-the-stored-text'},
+        {'name': 'didclose-leaves-the-store-alone', 'item': 'on_did_close_document',
+         'pattern': r'workspace\.close_open_file\(&params\.text_document\.uri\);', 'repl': '',
+         'expect': r'C29\.close\.store-forgets-document'},
+    ],
 }
